@@ -246,6 +246,25 @@ def forbidden_tokens(files):
     return hits
 
 
+def import_closure(modules):
+    """files of the project that the given modules import, transitively"""
+    seen = {}
+    todo = list(modules)
+    while todo:
+        m = todo.pop()
+        if m in seen:
+            continue
+        path = os.path.join(LEAN, m.replace('.', '/') + '.lean')
+        if not os.path.exists(path):
+            continue
+        seen[m] = path
+        for line in open(path):
+            mm = re.match(r'^\s*(?:public\s+)?import\s+((?:YaclibModel|Driver)\.\S+)', line)
+            if mm:
+                todo.append(mm.group(1))
+    return sorted(seen.values())
+
+
 def lean_sources():
     out = []
     for d in ('YaclibModel', 'Driver'):
@@ -374,12 +393,19 @@ class Result:
         return 1 if self.violations else 0
 
 
-def proof_stage(res, prop, extra_targets=()):
+def proof_stage(res, prop, extra_targets=(), drivers=()):
     """Build the property's theorems + driver, audit axioms and forbidden tokens.
     Returns (ok, broken): broken = list of human readable names of obligations that no longer check."""
     rel = 'YaclibModel/Props/%s.lean' % prop
     module = 'YaclibModel.Props.%s' % prop
-    ok, errors, text = lake_build([module, 'ymdriver'] + list(extra_targets))
+    ok, errors, text = lake_build([module] + list(extra_targets))
+    if drivers:
+        # the executable side is built separately: if only the driver is broken the theorems still count,
+        # and the correspondence stage reports the missing driver
+        dok, derrors, dtext = lake_build(list(drivers))
+        if not dok:
+            errors = errors + [dict(e, msg='driver: ' + e['msg']) for e in derrors]
+            ok = False
     decls = theorems_in(rel)
     names = [n for (k, n) in decls if k == 'theorem']
     n_examples = len([1 for (k, n) in decls if k == 'example'])
@@ -405,13 +431,18 @@ def proof_stage(res, prop, extra_targets=()):
         discharged = max(0, obligations - max(1, len(bad_decls))) if errors else 0
         if not broken:
             broken.append('lake build failed: ' + text[-800:])
-    hits = forbidden_tokens(lean_sources())
+    roots = [module]
+    for d in drivers:
+        mm = re.search(r'name = "%s"\s*\nroot = "([^"]+)"' % re.escape(d), open(os.path.join(LEAN, 'lakefile.toml')).read())
+        if mm:
+            roots.append(mm.group(1))
+    hits = forbidden_tokens(import_closure(roots))
     if hits:
         broken += ['forbidden token: ' + h for h in hits]
         discharged = 0
     res.coverage.update({
         'obligations': obligations, 'discharged': discharged,
-        'checker_cmd': 'cd /verif/lean && lake build %s ymdriver && lake env lean <#print axioms of every theorem in Props/%s.lean>' % (module, prop),
+        'checker_cmd': 'cd /verif/lean && lake build %s %s && lake env lean <#print axioms of every theorem in Props/%s.lean>' % (module, ' '.join(drivers), prop),
         'theorems': names,
         'axioms_used': sorted({a for v in axioms.values() for a in v}),
     })
